@@ -44,6 +44,23 @@ def _warm_up():
 _warm_up()
 
 
+class FakeClock:
+    """Simulated wall clock for the hist engine: time.time / monotonic / perf_counter of the simulated process
+    return a value that only moves when the history says so ('tick' operations)."""
+
+    def __init__(self, start=1.7e9):
+        import time as _t
+        self.now = float(start)
+        self._t = _t
+        _t.time = lambda: self.now
+        _t.monotonic = lambda: self.now - 1.6e9
+        _t.perf_counter = lambda: self.now - 1.6e9
+        _t.sleep = self.advance
+
+    def advance(self, dt):
+        self.now += max(0.0, float(dt))
+
+
 class _Pbar:
     def set_description(self, *a, **k):
         pass
@@ -214,6 +231,7 @@ def hll_value(kind, i):
 
 
 def _hll_history(a):
+    clock = FakeClock()
     sk = HyperLogLogWCache(0.02)
     decoy = HyperLogLogWCache(0.02) if a.get('decoy') else None
     decoy_n = 0
@@ -222,10 +240,12 @@ def _hll_history(a):
     if scaled:
         if not all(hasattr(sk, x) for x in ('p', 'm', 'warmup_size', 'width')):
             return {'problems': [], 'skipped': 'scaled mode unavailable (knob attributes missing)'}
-        sk.p = scaled
-        sk.m = 1 << scaled
-        sk.warmup_size = sk.m // 2
-        sk.width = 64 - scaled
+        for s_ in (sk, decoy):
+            if s_ is not None:
+                s_.p = scaled
+                s_.m = 1 << scaled
+                s_.warmup_size = s_.m // 2
+                s_.width = 64 - scaled
     exact_limit = (1 << (scaled - 1)) if scaled else 2 ** 18
     approx_limit = None if scaled else 2 ** 21
     kind = a.get('kind', 'hex')
@@ -252,11 +272,18 @@ def _hll_history(a):
     for step, op in enumerate(a['ops']):
         k = op[0]
         if decoy is not None:
-            for _ in range(3):
+            # the second sketch gets its own stream; in scaled mode it crosses its switch as well
+            burst = 3 if not scaled else rng.choice([3, exact_limit // 2 + 1])
+            before_main = len(sk)
+            for _ in range(burst):
                 decoy.add(f'decoy-{decoy_n}')
                 decoy_n += 1
             decoy.add('decoy-0')
-            if len(decoy) != decoy_n:
+            if len(sk) != before_main:
+                problems.append({'where': f'step {step}', 'kind': 'second-sketch-disturbed', 'detail': 'adding to another sketch changed this one',
+                                 'before': before_main, 'after': len(sk)})
+                break
+            if decoy_n <= exact_limit and len(decoy) != decoy_n:
                 problems.append({'where': f'step {step}', 'kind': 'second-sketch-disturbed', 'distinct': decoy_n, 'len': len(decoy)})
                 break
         if k == 'add_new':
@@ -295,6 +322,8 @@ def _hll_history(a):
                 problems.append({'where': f'step {step} re_add {where}', 'kind': 'duplicate-changed-size', 'distinct': distinct, 'before': before, 'after': after})
         elif k == 'probe':
             check(f'step {step}')
+        elif k == 'tick':
+            clock.advance(op[1])
         if problems:
             break
     if not problems:
